@@ -104,8 +104,13 @@ Definition right_level (o : op) : Z :=
                       | CallExpression [ Expression ] | CallExpression . IdentifierName
    The callee of "new" is parsed with binding strength S_Call: member accesses are taken, an
    argument list is not (it belongs to the "new"), and no prefix operator may start it.
-   Arguments : ( ) | ( ArgumentList ,opt ), each argument an AssignmentExpression. *)
-Fixpoint parse_expr (fuel : nat) (L : Z) (ts : list tok) : option (expr * list tok) :=
+   Arguments : ( ) | ( ArgumentList ,opt ), each argument an AssignmentExpression.
+   The grammar parameter [In] (13.10: RelationalExpression[In] has the production with "in" only for +In;
+   a for-loop head uses Expression[~In]) is the flag ni ("no in"): it is handed down to the operands of
+   binary operators and to the last branch of a conditional, and reset inside parentheses, brackets,
+   argument lists and the middle branch of a conditional (these use [+In] in the grammar); unary
+   operands and callees have no [In] parameter. *)
+Fixpoint parse_expr (fuel : nat) (ni : bool) (L : Z) (ts : list tok) : option (expr * list tok) :=
   match fuel with
   | O => None
   | S n =>
@@ -113,34 +118,34 @@ Fixpoint parse_expr (fuel : nat) (L : Z) (ts : list tok) : option (expr * list t
     | [] => None
     | t :: r =>
       if is_new t then
-        match parse_expr n S_Call r with
+        match parse_expr n false S_Call r with
         | Some (c, r') =>
             match r' with
             | p :: r'' =>
                 if is_open p then
                   match parse_args n r'' with
-                  | Some (a, r3) => parse_suffix n L (ENew c a) S_Member r3
+                  | Some (a, r3) => parse_suffix n ni L (ENew c a) S_Member r3
                   | None => None
                   end
-                else parse_suffix n L (ENew c ANil) S_New r'
-            | [] => parse_suffix n L (ENew c ANil) S_New r'
+                else parse_suffix n ni L (ENew c ANil) S_New r'
+            | [] => parse_suffix n ni L (ENew c ANil) S_New r'
             end
         | None => None
         end
       else match prefix_op t with
       | Some o =>
           if S_New <=? L then None
-          else match parse_expr n S_Unary r with
-          | Some (v, r') => if negb (is_update o) || is_target v then parse_suffix n L (EUn o v) S_Unary r' else None
+          else match parse_expr n false S_Unary r with
+          | Some (v, r') => if negb (is_update o) || is_target v then parse_suffix n ni L (EUn o v) S_Unary r' else None
           | None => None
           end
       | None =>
           match atom_of t with
-          | Some a => parse_suffix n L a S_Member r
+          | Some a => parse_suffix n ni L a S_Member r
           | None =>
               if is_open t then
-                match parse_expr n 0 r with
-                | Some (e, c :: r'') => if is_close c then parse_suffix n L e S_Member r'' else None
+                match parse_expr n false 0 r with
+                | Some (e, c :: r'') => if is_close c then parse_suffix n ni L e S_Member r'' else None
                 | _ => None
                 end
               else None
@@ -148,7 +153,7 @@ Fixpoint parse_expr (fuel : nat) (L : Z) (ts : list tok) : option (expr * list t
       end
     end
   end
-with parse_suffix (fuel : nat) (L : Z) (left : expr) (ll : Z) (ts : list tok) : option (expr * list tok) :=
+with parse_suffix (fuel : nat) (ni : bool) (L : Z) (left : expr) (ll : Z) (ts : list tok) : option (expr * list tok) :=
   match fuel with
   | O => None
   | S n =>
@@ -157,14 +162,14 @@ with parse_suffix (fuel : nat) (L : Z) (left : expr) (ll : Z) (ts : list tok) : 
     | t :: r =>
       if is_dot t then
         match r with
-        | TId s :: r' => if S_Call <=? ll then parse_suffix n L (EDot left s) S_Member r' else None
+        | TId s :: r' => if S_Call <=? ll then parse_suffix n ni L (EDot left s) S_Member r' else None
         | _ => None
         end
       else if is_lbrack t then
         (* MemberExpression [ Expression ] *)
         if S_Call <=? ll then
-          match parse_expr n 0 r with
-          | Some (i, c :: r') => if is_rbrack c then parse_suffix n L (EIndex left i) S_Member r' else None
+          match parse_expr n false 0 r with
+          | Some (i, c :: r') => if is_rbrack c then parse_suffix n ni L (EIndex left i) S_Member r' else None
           | _ => None
           end
         else None
@@ -173,7 +178,7 @@ with parse_suffix (fuel : nat) (L : Z) (left : expr) (ll : Z) (ts : list tok) : 
         if S_Call <=? L then Some (left, ts)
         else if S_Call <=? ll then
           match parse_args n r with
-          | Some (a, r') => parse_suffix n L (ECall left a) S_Call r'
+          | Some (a, r') => parse_suffix n ni L (ECall left a) S_Call r'
           | None => None
           end
         else None
@@ -181,11 +186,11 @@ with parse_suffix (fuel : nat) (L : Z) (left : expr) (ll : Z) (ts : list tok) : 
         (* ConditionalExpression : ShortCircuitExpression ? AssignmentExpression : AssignmentExpression *)
         if S_Cond <=? L then Some (left, ts)
         else if S_Cond <? ll then
-          match parse_expr n 3 r with
+          match parse_expr n false 3 r with
           | Some (y, c :: r') =>
               if is_colon c then
-                match parse_expr n 3 r' with
-                | Some (no, r'') => parse_suffix n L (ECond left y no) S_Cond r''
+                match parse_expr n ni 3 r' with
+                | Some (no, r'') => parse_suffix n ni L (ECond left y no) S_Cond r''
                 | None => None
                 end
               else None
@@ -195,14 +200,14 @@ with parse_suffix (fuel : nat) (L : Z) (left : expr) (ll : Z) (ts : list tok) : 
       else match postfix_op t with
       | Some o =>
           if S_Update <=? L then Some (left, ts)
-          else if (S_Member <=? ll) && is_target left then parse_suffix n L (EUn o left) S_Update r else None
+          else if (S_Member <=? ll) && is_target left then parse_suffix n ni L (EUn o left) S_Update r else None
       | None =>
           match binary_op t with
           | Some o =>
-              if spec_level o <=? L then Some (left, ts)
+              if (ni && op_eqb o BIn) || (spec_level o <=? L) then Some (left, ts)
               else if left_ok o ll left then
-                match parse_expr n (right_level o) r with
-                | Some (rt, r') => parse_suffix n L (EBin o left rt) (spec_level o) r'
+                match parse_expr n ni (right_level o) r with
+                | Some (rt, r') => parse_suffix n ni L (EBin o left rt) (spec_level o) r'
                 | None => None
                 end
               else None
@@ -219,7 +224,7 @@ with parse_args (fuel : nat) (ts : list tok) : option (expr * list tok) :=
     | [] => None
     | t :: r =>
       if is_close t then Some (ANil, r)
-      else match parse_expr n 3 ts with
+      else match parse_expr n false 3 ts with
            | Some (e, c :: r') =>
                if is_close c then Some (ACons e ANil, r')
                else if is_comma c then
@@ -234,11 +239,11 @@ with parse_args (fuel : nat) (ts : list tok) : option (expr * list tok) :=
   end.
 
 (* a whole token list is one expression *)
-Definition parse_fuel (n : nat) (ts : list tok) : option expr :=
-  match parse_expr n 0 ts with Some (e, []) => Some e | _ => None end.
-Definition parse (ts : list tok) : option expr := parse_fuel (2 * List.length ts + 2) ts.
-Definition parse_text (s : list Z) : option expr :=
-  match lex s with Some ts => parse ts | None => None end.
+Definition parse_fuel (n : nat) (ni : bool) (ts : list tok) : option expr :=
+  match parse_expr n ni 0 ts with Some (e, []) => Some e | _ => None end.
+Definition parse (ni : bool) (ts : list tok) : option expr := parse_fuel (2 * List.length ts + 2) ni ts.
+Definition parse_text (ni : bool) (s : list Z) : option expr :=
+  match lex s with Some ts => parse ni ts | None => None end.
 
 (* the printer's only normalisation on this fragment: the comma operator is printed without
    parentheses on either side ("a, (b, c)" prints as "a, b, c"), so comma trees come back
